@@ -32,16 +32,34 @@ class MoveSession:
         self.actors = {"move": MoveActor(**kw), "cross": CrossMoveActor(**kw), "drift": DriftMoveActor(**kw)}
         self.stat = self.w.stat_wire()
 
-    def call(self, kind, a, arg):
-        """returns (pre_dyn, call_wire, outcome_wire)"""
+    def call(self, kind, a, arg, rep=None):
+        """returns (pre_dyn, call_wire, outcome_wire); rep = representation of the action value (a numpy integer
+        type name): equal as a value and a member of the declared action space, another object type"""
         agent = self.w.agent_list[a]
         pre = self.w.dyn_wire()
         if kind == "move":
-            ad = {"move": np.array(arg, dtype=int)}
+            val = np.array(arg, dtype=int)
             cw = ["move", a, [int(arg[0]), int(arg[1])]]
+            if rep:
+                alt = np.array(arg, dtype=getattr(np, rep))
+                if [int(x) for x in alt] == [int(x) for x in val]:
+                    val = alt
         else:
-            ad = {"move": int(arg)}
+            val = int(arg)
             cw = [kind, a, int(arg)]
+            if rep:
+                val = getattr(np, rep)(int(arg))
+        if rep:
+            sp = getattr(agent, "action_space", None)
+            try:
+                inside = sp is not None and "move" in sp and val in sp["move"]
+            except Exception:  # noqa: BLE001
+                inside = False
+            if not inside:      # not a point of the declared space in this representation: use the plain one
+                val = np.array(arg, dtype=int) if kind == "move" else int(arg)
+                rep = None
+        self.last_rep = rep
+        ad = {"move": val}
         st, val = guarded(lambda: self.actors[kind].process_action(agent, ad))
         if st == "ok":
             ret = -1 if val is None else int(bool(val))
@@ -66,9 +84,14 @@ class MoveProp(core.Prop):
         self.assumptions = ["health is an exact rational (dyadic test values)",
                             "worlds are built by setting agent state directly and placing active agents through Grid.place"]
 
-    def _case(self, desc, stat, pre, cw, out, tags):
+    def _case(self, desc, stat, pre, cw, out, tags, rep=None):
         line = wire.enc(["gmove", stat, pre, cw, out])
         d = {"world": desc, "pre": pre, "call": cw}
+        if rep:
+            d["rep"] = rep
+            tags = tags + ["action-as:" + rep]
+        if desc.get("overlap0") is not None:
+            tags = tags + ["overlap-table-replaced"]
         return core.Case(d, line, wire.enc(out), key=json.dumps([stat, pre, cw]), nontrivial="moved" in tags or "blocked" in tags,
                          tags=tags)
 
@@ -89,8 +112,8 @@ class MoveProp(core.Prop):
         sess = MoveSession(desc)
         self._load_dyn(sess, d["pre"])
         cw = d["call"]
-        pre, cw2, out = sess.call(cw[0], cw[1], cw[2])
-        return self._case(d["world"], sess.stat, pre, cw2, out, self._tags(sess, pre, cw2, out))
+        pre, cw2, out = sess.call(cw[0], cw[1], cw[2], rep=d.get("rep"))
+        return self._case(d["world"], sess.stat, pre, cw2, out, self._tags(sess, pre, cw2, out), rep=sess.last_rep)
 
     @staticmethod
     def _load_dyn(sess, dyn):
@@ -150,8 +173,10 @@ class MoveProp(core.Prop):
                                     self._load_dyn(sess, pre0)
                                     if hasattr(sess.w.agent_list[m], "initial_orientation"):
                                         sess.w.agent_list[m].orientation = orient
-                                    pre, cw, out = sess.call(kind, m, act)
-                                    yield self._case(d2, sess.stat, pre, cw, out, self._tags(sess, pre, cw, out))
+                                    rep = (None, "uint8", "int64", "uint32")[(act + orient + r0 + c0) % 4]
+                                    pre, cw, out = sess.call(kind, m, act, rep=rep)
+                                    yield self._case(d2, sess.stat, pre, cw, out, self._tags(sess, pre, cw, out),
+                                                     rep=sess.last_rep)
         # random op sequences
         nworlds = 300 if quick else 10000
         for _ in range(nworlds):
@@ -174,8 +199,12 @@ class MoveProp(core.Prop):
                     arg = rng.randrange(5)
                 if not ag.active:
                     continue
-                pre, cw, out = sess.call(kind, a, arg)
-                yield self._case(desc, sess.stat, pre, cw, out, self._tags(sess, pre, cw, out))
+                rep = None
+                if rng.random() < 0.4:
+                    rep = rng.choice(["int64", "int32", "int16", "int8"] if kind == "move" else
+                                     ["int64", "int32", "int8", "uint8", "uint16", "uint32", "uint64"])
+                pre, cw, out = sess.call(kind, a, arg, rep=rep)
+                yield self._case(desc, sess.stat, pre, cw, out, self._tags(sess, pre, cw, out), rep=sess.last_rep)
 
     def interpret(self, reply, case):
         model, ms, is_ = reply
